@@ -58,11 +58,23 @@ func (e *Environment) Get(name string) Object {
 }
 
 func (e *Environment) evalNameWithIndex(name string) []string {
+	return e.expandNameWithIndex(name, map[string]bool{})
+}
+
+// expandNameWithIndex expands the aliases in the name; an alias that is already
+// being expanded is left as it is, so cyclic aliases (an attribute that is
+// literally named like its placeholder) do not recurse forever
+func (e *Environment) expandNameWithIndex(name string, expanding map[string]bool) []string {
 	names := strings.Split(name, ".")
 	for _, n := range names {
-		if alias, ok := e.Aliases[n]; ok {
-			names = append(names, e.evalNameWithIndex(alias)...)
+		alias, ok := e.Aliases[n]
+		if !ok || expanding[n] {
+			continue
 		}
+
+		expanding[n] = true
+		names = append(names, e.expandNameWithIndex(alias, expanding)...)
+		delete(expanding, n)
 	}
 
 	return names
